@@ -64,6 +64,9 @@ def op_universe():
         ops.append(("insert2", i, [("b", 2), ("b", 1), ("a", 1)]))
         ops.append(("insert2", i, {"b": 1}))
     ops.append(("insert2", "0", ("a", 1)))  # TypeError: index not an int
+    ops.append(("insert2", 0, ["a", 1]))                 # one pair written as a list
+    ops.append(("insert2", 1, [["b", 2], ["a", 1]]))     # pairs written as lists
+    ops.append(("insert_after", "a", [["b", 1]], 0))
     ops.append(("insert_iter", 0, [("a", 1), ("b", 2)]))
     ops.append(("insert_iter", 1, [("b", 1)]))
     # refused part-way: a sequence of pairs with a malformed element that is
@@ -274,7 +277,7 @@ def bfs(rec, hb, clsname, cls, depth, max_states, part, nparts):
 
 def random_histories(rec, hb, rng, classes, n_hist, pvl):
     # (one key has characters at its ends that str.strip() would remove)
-    K = ("a", "b", "c", "d", "\xa0e ", "")      # (also the empty string: a falsy key)
+    K = ("ka", "kb", "kc", "d", "\xa0e ", "")   # (also the empty string: a falsy key)
     col = pvl.collections
 
     def val():
@@ -291,8 +294,13 @@ def random_histories(rec, hb, rng, classes, n_hist, pvl):
             return col.PVLGroup([("a", 1)])
         return col.PVLObject([("g", col.PVLGroup()), ("a", 1), ("a", 2)])
 
+    def fresh(k):
+        # an equal key that is another object (what a parser, str.join or an
+        # f-string hand over); single characters and "" are shared by CPython
+        return "".join(list(k)) if len(k) > 1 else k
+
     def pair():
-        return (rng.choice(K), val())
+        return (fresh(rng.choice(K)), val())
 
     def rand_op(n):
         r = rng.random()
@@ -308,6 +316,10 @@ def random_histories(rec, hb, rng, classes, n_hist, pvl):
             arg = [pair() for _ in range(k)] if k != 1 else pair()
             if k == 2 and rng.random() < 0.3:
                 arg = {rng.choice(K): val()}
+            if k == 1 and rng.random() < 0.4:
+                arg = list(arg)              # one pair written as a list
+            elif k >= 2 and rng.random() < 0.3 and isinstance(arg, list):
+                arg = [list(p) for p in arg]  # pairs written as lists
             if k >= 2 and isinstance(arg, list) and rng.random() < 0.15:
                 # malformed element after good ones: refused as a whole
                 arg = arg + [rng.choice((("c",), 3, ("a", 1, 2)))]
@@ -328,9 +340,9 @@ def random_histories(rec, hb, rng, classes, n_hist, pvl):
             return ("update", {rng.choice(K): val()}, {rng.choice(K): val()})
         if r < 0.72:
             return (rng.choice(("delitem", "discard", "pop1", "popall1")),
-                    rng.choice(K))
+                    fresh(rng.choice(K)))
         if r < 0.77:
-            return (rng.choice(("pop2", "popall2")), rng.choice(K), "dflt")
+            return (rng.choice(("pop2", "popall2")), fresh(rng.choice(K)), "dflt")
         if r < 0.87:
             return (rng.choice(("pop0", "popitem")),)
         if r < 0.94:
@@ -351,7 +363,8 @@ def random_histories(rec, hb, rng, classes, n_hist, pvl):
             mb = Model(m.items)
             wit = {"cls": clsname, "history": list(hist), "op": op}
             before = tuple(map(repr, m.items))
-            ok = check_step(rec, clsname, cls, c, m, op, mb, K + ("zz",),
+            ok = check_step(rec, clsname, cls, c, m, op, mb,
+                            tuple(fresh(k) for k in K) + ("zz",),
                             (1, 2, "x", None), "random", wit)
             rec.case(("rnd", clsname, before, repr(op)), True,
                      sample=wit if (h % 400 == 0 and s == steps - 1) else None)
